@@ -22,6 +22,13 @@ from lib.verif import BUILD, Rng, coq_list, coq_z
 PROP_FILES = ['Props/C15.v']
 LEVEL = 'proof'
 
+
+def regen(ctx):
+    """the shape of bumble/keys.py -> coq/Gen/C15Source.v (fail closed), compared with the model by the
+    C15_*_match(es)_source theorems of Props/C15.v"""
+    from translate import c15_source
+    ctx.write_gen('C15Source', c15_source.generate())
+
 logging.disable(logging.CRITICAL)
 
 FIELDS = ['address_type', 'ltk', 'ltk_central', 'ltk_peripheral', 'irk', 'csrk', 'link_key', 'link_key_type']
@@ -328,7 +335,11 @@ def spec_fields(spec):
 
 
 def coq_str(s):
-    return coq_list(list(s.encode('ascii')), coq_z)
+    return coq_list([ord(c) for c in s], coq_z)
+
+
+def py_str(cps):
+    return ''.join(chr(c) for c in cps)
 
 
 def coq_opt(v, f):
@@ -364,8 +375,11 @@ def handle_ns(h):
 
 
 # ----------------------------------------------------------------------------- generation
-NAMESPACES = ['NS1', '00:11:22:33:44:55', 'ns b', 'F0:F1:F2:F3:F4:F5', 'A']
-PEERS = ['F0:F1:F2:F3:F4:F5', 'F0:F1:F2:F3:F4:F5/P', 'A', 'AB', 'a~!', 'NS1', 'B', '_z']
+NAMESPACES = ['NS1', '00:11:22:33:44:55', 'ns b', 'F0:F1:F2:F3:F4:F5', 'A',
+              # names json.dump has to escape: quote, backslash, control characters, DEL, non-ASCII, beyond the BMP
+              'n"s\\', '\u00e9t\u00e9', 'tab\there\n', '\U0001F600', '\x00']
+PEERS = ['F0:F1:F2:F3:F4:F5', 'F0:F1:F2:F3:F4:F5/P', 'A', 'AB', 'a~!', 'NS1', 'B', '_z',
+         'p"q', 'back\\slash/', '\x01\x1f\x7f', '\u20acuro', '\u03a9\U00010000\uffff', '\r\x08\x0c']
 
 
 def gen_key(rng, small):
@@ -398,6 +412,8 @@ INITIAL_FILES = [
     '{\n "00:11:22:33:44:55" : {\r\n\t"B": {"link_key": {"authenticated": true, "value": ""}, "link_key_type": 0}}}',
     '{}',
     '{"NS1": {}}',
+    # escapes another writer may use: \\/ and upper-case \\u, a surrogate pair, a raw DEL
+    '{"NS1": {"\\u00C9\\/x\\ud83d\\ude00\x7f": {"address_type": 0, "irk": {"value": "aa"}}}}',
 ]
 
 
@@ -425,6 +441,8 @@ def gen_history(rng, max_len, small=False, crashes=True):
             it.update(op='get', name=rng.choice(peers))
         else:
             it.update(op='get_all')
+            if rng.chance(1, 2):
+                it['resolving'] = True
         if crashes and it['op'] in MUTATING and rng.chance(1, 7):
             it['crash'] = [rng.below(1 << 30), rng.below(1 << 30)]
         items.append(it)
@@ -533,6 +551,26 @@ class Runner:
             return (3, None, [(name, canon_keys(k)) for name, k in r])
         return (0, None, [])
 
+    def resolving(self, store):
+        """KeyStore.get_resolving_keys on the real store; hci.Address is replaced by a recorder so that the
+        observation is exactly what keys.py hands to it: [(irk value, name, address type)]"""
+        from bumble import hci
+        real = hci.Address
+
+        class Recorder:
+            RANDOM_DEVICE_ADDRESS = real.RANDOM_DEVICE_ADDRESS
+
+            def __new__(cls, name, address_type=real.RANDOM_DEVICE_ADDRESS):
+                return ('addr', name, int(address_type))
+        hci.Address = Recorder
+        try:
+            r = self.loop.run_until_complete(asyncio.wait_for(store.get_resolving_keys(), 600))
+            return [(list(v), a[1], a[2]) for v, a in r]
+        except Exception as e:
+            return ('raised', type(e).__name__)
+        finally:
+            hci.Address = real
+
     def fresh_views(self, sc, handles):
         """what fresh stores on the same path return, per handle; None in place of a view = raised"""
         from bumble.keys import JsonKeyStore
@@ -594,6 +632,15 @@ class Runner:
                     res['violations'].append((f'result:{where}', f'item {idx} {op} via {h!r}: returned {_short(got)}, '
                                               f'applying the history in order gives {_short(expected)}'))
                     break
+                if op == 'get_all' and it.get('resolving'):
+                    row['resolving'] = self.resolving(store)
+                    want = [(e[4][1][0], name, e[0][1] if e[0] is not None else 1)
+                            for name, e in ref.view(h) if e[4] is not None]
+                    got_r = row['resolving']
+                    if not isinstance(got_r, list) or sorted(got_r, key=lambda x: x[1]) != want:
+                        res['violations'].append((f'resolving:{where}', f'item {idx} get_resolving_keys via {h!r}: '
+                                                  f'{_short(got_r)}, the stored entries with an IRK are {_short(want)}'))
+                        break
                 if op in MUTATING:
                     fv = self.fresh_views(sc, handles)
                     if fv != ref.views(handles):
@@ -794,14 +841,19 @@ def compare(ctx, hist, res, mres):
         if 'obs' not in row:
             break       # the oracle stopped the history here
         it = hist['items'][idx]
-        tag, g, a, mobs, msteps, mtbl = mt[idx]
-        m_out = (tag, g, [(bytes(nm).decode('ascii'), ko) for nm, ko in a])
+        tag, g, a, mobs, msteps, mtbl, mres_keys = mt[idx]
+        m_out = (tag, g, [(py_str(nm), ko) for nm, ko in a])
         i_out = row.get('outcome_crashed') if row.get('crashed') else row['outcome']
         exists, main, tmp, others = row['obs']
         i_obs = (exists, obs_file(main), obs_file(tmp))
         if m_out != i_out:
             ctx.disagree('result', {'history': hist, 'item': idx}, m_out, i_out)
             return False
+        if 'resolving' in row:
+            m_r = None if mres_keys is None else [(v, py_str(nm), t) for v, nm, t in mres_keys[1]]
+            if m_r != row['resolving']:
+                ctx.disagree('get_resolving_keys', {'history': hist, 'item': idx}, m_r, row['resolving'])
+                return False
         if [tuple(x) for x in msteps] != step_codes(row['steps']) or (it['op'] not in MUTATING and row['steps']):
             ctx.disagree('file-system steps', {'history': hist, 'item': idx}, msteps, row['steps'][:40])
             return False
@@ -942,16 +994,92 @@ def run(ctx):
             ctx.case(json.dumps(hist, sort_keys=True), _nontrivial(hist, res),
                      {'history': hist} if k % 60 == 3 and len(hist['items']) <= 4 else None)
             k += 1
+        run_from_device(ctx)
     finally:
         runner.close()
         shutil.rmtree(_scratch_root(), ignore_errors=True)
 
 
+def run_from_device(ctx):
+    """JsonKeyStore.from_device on stand-in devices: namespace and file name against the model"""
+    import pathlib as _pl
+    from types import SimpleNamespace
+    from bumble import hci
+    from bumble.keys import JsonKeyStore
+    pubs = [(hci.Address.ANY, True), (hci.Address.ANY_RANDOM, True),
+            (hci.Address('F0:F1:F2:F3:F4:F5', hci.Address.PUBLIC_DEVICE_ADDRESS), False),
+            (hci.Address('00:00:00:00:00:01', hci.Address.PUBLIC_DEVICE_ADDRESS), False)]
+    rnds = [(hci.Address.ANY_RANDOM, True), (hci.Address('C4:C5:C6:C7:C8:C9', hci.Address.RANDOM_DEVICE_ADDRESS), False)]
+    cfgs = [None, 'JsonKeyStore', 'JsonKeyStore:', 'JsonKeyStore:/x/y.json', 'JsonKeyStore:/x/a:b.json', 'JsonKeyStore:rel.json']
+    explicit = [None, '', '/z/k.json']
+    cases = [(p, r, c, e) for p in pubs for r in rnds for c in cfgs for e in explicit]
+    exprs = []
+    for (p, pa), (r, ra), c, e in cases:
+        exprs.append(f"(from_device_ns {'true' if pa else 'false'} {coq_str(str(p))} {'true' if ra else 'false'} "
+                     f"{coq_str(str(r))}, from_device_filename {coq_opt(e, coq_str)} {coq_opt(c, coq_str)})")
+    model = ctx.coq_eval(['Model.KeyStore'], exprs)
+    for ((p, pa), (r, ra), c, e), (m_ns, m_fn) in zip(cases, model):
+        dev = SimpleNamespace(config=SimpleNamespace(keystore=c), public_address=p, random_address=r)
+        case = {'public': str(p), 'random': str(r), 'keystore': c, 'filename': e}
+        try:
+            st = JsonKeyStore.from_device(dev, e)
+            got_ns = st.namespace
+            got_fn = st.filename
+        except Exception as ex:
+            ctx.disagree('from_device', case, [py_str(m_ns), m_fn], ('raised', type(ex).__name__))
+            continue
+        ctx.case(('from_device', str(p), str(r), c, e), True, None)
+        ctx.count('from_device.cases')
+        want_ns = py_str(m_ns)
+        ok = got_ns == want_ns
+        if m_fn is not None:
+            ok = ok and got_fn == _pl.Path(py_str(m_fn[1])).resolve()
+        else:
+            ok = ok and got_fn.name == got_ns.lower().replace(':', '-').replace('/', '-') + '.json'
+        if not ok:
+            ctx.disagree('from_device', case, [want_ns, None if m_fn is None else py_str(m_fn[1])], [got_ns, str(got_fn)])
+        # oracle: the namespace is a device address when the device has one, never empty
+        if not got_ns or (not pa and got_ns != str(p)):
+            ctx.violation('from_device:namespace', f'from_device {case}: namespace {got_ns!r}', {'from_device': case})
+
+
+def unknown_fields_roundtrip(ctx, runner):
+    """fields of PairingKeys the model does not know (added since the model was read): store a value,
+    read it back through a fresh store, compare"""
+    import dataclasses
+    from bumble.keys import JsonKeyStore, PairingKeys
+    extra = [f.name for f in dataclasses.fields(PairingKeys) if f.name not in FIELDS]
+    if not extra:
+        return
+    sc = Scratch(os.path.join(runner.scratch_root, 'fields'), False)
+    try:
+        for name in extra:
+            for value in (1, 'x', True, PairingKeys.Key(b'\x01' * 16)):
+                try:
+                    pk = PairingKeys(**{name: value})
+                    runner.loop.run_until_complete(JsonKeyStore('NS1', sc.main).update('A', pk))
+                    back = runner.loop.run_until_complete(JsonKeyStore('NS1', sc.main).get('A'))
+                    ok = back is not None and getattr(back, name) == value
+                except Exception:
+                    continue      # a value of the wrong type for this field
+                if not ok:
+                    ctx.violation(f'roundtrip:field:{name}',
+                                  f'PairingKeys({name}={value!r}) stored by update() reads back as '
+                                  f'{getattr(back, name, None)!r}: the field is not serialised',
+                                  {'unknown_field': name, 'value': repr(value)})
+                    return
+    finally:
+        sc.done()
+
+
 def search(ctx):
-    """Directed search after a broken proof / correspondence: every crash point of every operation
-    in the directed histories and in short random ones, oracle only."""
+    """Directed search after a broken proof / correspondence: fields the model does not know; every crash
+    point of every operation in the directed histories and in short random ones, oracle only."""
     runner = Runner(_scratch_root())
     try:
+        unknown_fields_roundtrip(ctx, runner)
+        if ctx.violations:
+            return
         rng = ctx.rng.fork('search')
         cases = directed_histories() + [gen_history(rng, 5, small=True, crashes=False) for _ in range(150)]
         for hist in cases:
@@ -968,6 +1096,17 @@ def search(ctx):
 def replay(ctx, obj):
     r = obj['replay']
     runner = Runner(_scratch_root())
+    if 'unknown_field' in r:
+        try:
+            unknown_fields_roundtrip(ctx, runner)
+            print('oracle:', 'VIOLATED ' + ctx.violations[0]['what'] if ctx.violations else 'holds')
+        finally:
+            runner.close()
+            shutil.rmtree(_scratch_root(), ignore_errors=True)
+        return 0
+    if 'from_device' in r:
+        print('from_device case', r['from_device'], '- re-run ./check C15 for the verdict')
+        return 0
     try:
         res = runner.run_history(r['history'], r.get('sweep', 'all'))
         for it, row in zip(r['history']['items'], res['items']):
